@@ -435,6 +435,24 @@ def run_property(prop, module, tier, repo, seed):
         module.run(ctx, R)
         if tier == "thorough" and hasattr(module, "thorough"):
             module.thorough(ctx, R)
+        if tier == "thorough" and not os.environ.get("VERIF_NO_VALIDATE"):
+            # checker validation: every registered mutant of this property must be
+            # flagged and every benign twin must stay silent, on scratch copies of
+            # the tree under analysis (reported; never changes the verdict on the tree)
+            sys.path.insert(0, VERIF)
+            from selftest.run import validate
+
+            s = validate(prop, repo, jobs=int(os.environ.get("VERIF_JOBS", "16")))
+            if "error" in s:
+                R.selftest = {"error": s["error"]}
+                print(f"CHECKER-VALIDATION property={prop} not run: {s['error']}")
+            else:
+                R.selftest = {k: s[k] for k in ("mutants", "mutants_detected", "twins", "twins_silent", "skipped", "failures")}
+                R.selftest["variants_analysed"] = s["mutants"] + s["twins"]
+                R.selftest["results"] = [{"name": r["name"], "kind": r["kind"], "status": r["status"], "info": r["info"][:200]} for r in s["results"]]
+                print(f"CHECKER-VALIDATION property={prop} mutants {s['mutants_detected']}/{s['mutants']} flagged, twins {s['twins_silent']}/{s['twins']} silent, skipped {s['skipped']}")
+                for fl in s["failures"]:
+                    print(f"CHECKER-VALIDATION-FAILED property={prop} {fl[:200]}")
         R.census["calls_by_resolution"] = ctx.r.census() if ctx._r is not None else {}
         return R, R.finish()
     except AnalysisError as e:
